@@ -74,8 +74,8 @@ def _ksizes(t):
     return {m.group(1): int(m.group(2)) for m in re.finditer(r"impl KmerSize for (K\d+) \{[^}]*?fn K\(\) -> usize \{\s*(\d+)\s*\}", t, re.S)}
 
 @item("shipped", "List (String × Nat × Nat × Bool)",
-      '[("Kmer64",128,64,false),("Kmer48",128,48,true),("Kmer40",128,40,true),("Kmer32",64,32,false),("Kmer30",64,30,true),("Kmer24",64,24,true),("Kmer20",64,20,true),("Kmer16",32,16,false),("Kmer15",32,15,true),("Kmer14",32,14,true),("Kmer12",32,12,true),("Kmer10",32,10,true),("Kmer8",16,8,false),("Kmer6",16,6,true),("Kmer5",16,5,true),("Kmer4",8,4,false),("Kmer3",8,3,true),("Kmer2",8,2,true),("K31",64,31,true)]',
-      "shipped k-mer types: (name, storage bits, K, is VarIntKmer); the 18 aliases of kmer.rs plus VarIntKmer<u64,K31>")
+      '[("Kmer64",128,64,false),("Kmer48",128,48,true),("Kmer40",128,40,true),("Kmer32",64,32,false),("Kmer30",64,30,true),("Kmer24",64,24,true),("Kmer20",64,20,true),("Kmer16",32,16,false),("Kmer15",32,15,true),("Kmer14",32,14,true),("Kmer12",32,12,true),("Kmer10",32,10,true),("Kmer8",16,8,false),("Kmer6",16,6,true),("Kmer5",16,5,true),("Kmer4",8,4,false),("Kmer3",8,3,true),("Kmer2",8,2,true),("K31",64,31,true),("VK4",8,4,true),("V16K4",16,4,true),("V128K31",128,31,true)]',
+      "k-mer types: (name, storage bits, K, is VarIntKmer); the 18 aliases of kmer.rs plus VarIntKmer<u64,K31>, <u8,K4>, <u16,K4>, <u128,K31>")
 def _():
     t = src("kmer.rs")
     ks = _ksizes(t)
@@ -95,9 +95,14 @@ def _():
     # completeness: every alias declared in the file must have been understood
     if len(out) != len(re.findall(r"^pub type Kmer\w*\b", t, re.M)):
         return None
-    if len(out) < 1 or "K31" not in ks:
+    if len(out) < 1 or "K31" not in ks or "K4" not in ks:
         return None
     out.append(("K31", 64, ks["K31"], "true"))
+    # VarIntKmer instances that are no alias but can be written from the shipped parts: the only one that fills its
+    # storage (u8, K4), and two with much spare room
+    out.append(("VK4", 8, ks["K4"], "true"))
+    out.append(("V16K4", 16, ks["K4"], "true"))
+    out.append(("V128K31", 128, ks["K31"], "true"))
     return "[" + ",".join('("%s",%d,%d,%s)' % o for o in out) + "]"
 
 def _ladder(ty):
